@@ -1030,7 +1030,7 @@ Lemma resolve_absolute_lemma U path ot n :
    Spec.to_spec U (go_resolve U path (dot :: n) ot) = Spec.of_find n (Spec.find_symbol U n)).
 Proof.
   assert (E : go_resolve U path (dot :: n) ot = resolve_element U n).
-  { unfold go_resolve, resolve. cbn [starts_with_dot tl]. now rewrite N.eqb_refl. }
+  { unfold go_resolve. cbn [starts_with_dot tl]. now rewrite N.eqb_refl. }
   split; [exact E|]. intros W Hn. apply wf_universe_wf in W. rewrite E, Q_spec by assumption.
   now apply to_spec_from_find.
 Qed.
@@ -1153,14 +1153,14 @@ Qed.
 
 Lemma resolve_eq_protoc_partial_lemma U path elem nm m :
   wf_universe U = true -> scope_ok U path elem = true -> double_dot nm = false -> guard U nm m = true ->
-  Spec.outcome_of m (Spec.to_spec U (go_resolve U path nm (Spec.only_types m)))
+  Spec.outcome_of m (Spec.to_spec U (go_resolve_old U path nm (Spec.only_types m)))
   = Spec.outcome_of m (Spec.lookup U (relative_to U path elem) nm m).
 Proof.
   intros Hw Hs Hdd G. rewrite <- (repaired_resolve_eq_protoc_lemma U path elem nm m Hw Hs Hdd).
   apply wf_universe_wf in Hw. destruct (starts_with_dot nm) eqn:Hsd.
-  - unfold go_resolve, go_resolve_fixed, resolve. now rewrite Hsd.
+  - unfold go_resolve_old, go_resolve_fixed, resolve. now rewrite Hsd.
   - pose proof (scope_ok_facts U path elem Hw Hs) as F. set (P := pkg_comps (f_pkg (u_self U))) in *.
-    unfold go_resolve, go_resolve_fixed, resolve. rewrite Hsd. rewrite first_name_part by assumption.
+    unfold go_resolve_old, go_resolve_fixed, resolve. rewrite Hsd. rewrite first_name_part by assumption.
     rewrite !resolve_loop_gloop. rewrite (ds_fixed U path elem P), (ds_asis U path elem P) by assumption.
     rewrite gloop_collapse.
     + rewrite app_assoc, <- !map_app. now rewrite ext_npd.
@@ -1246,11 +1246,11 @@ Proof.
   - cbn [map run_scope_skip]. f_equal. rewrite file_scope_loop_skip_floop. now rewrite (prefix_steps U path elem P).
 Qed.
 
-Lemma go_resolve_skip_fixed U path elem nm ot :
+Lemma skip_eq_fixed U path elem nm ot :
   wf_universe U = true -> scope_ok U path elem = true ->
-  go_resolve_skip U path nm ot = go_resolve_fixed U path nm ot.
+  go_resolve U path nm ot = go_resolve_fixed U path nm ot.
 Proof.
-  intros Hw Hs. apply wf_universe_wf in Hw. unfold go_resolve_skip, go_resolve_fixed, resolve.
+  intros Hw Hs. apply wf_universe_wf in Hw. unfold go_resolve, go_resolve_fixed, resolve.
   destruct (starts_with_dot nm) eqn:Hsd; [reflexivity|].
   pose proof (scope_ok_facts U path elem Hw Hs) as F. set (P := pkg_comps (f_pkg (u_self U))) in *.
   rewrite resolve_loop_skip_gloop, resolve_loop_gloop.
@@ -1258,12 +1258,12 @@ Proof.
   rewrite gloop_floop_app. rewrite app_assoc, <- !map_app. now rewrite ext_npd.
 Qed.
 
-Lemma patched_resolve_eq_protoc_lemma U path elem nm m :
+Lemma resolve_eq_protoc_lemma U path elem nm m :
   wf_universe U = true -> scope_ok U path elem = true -> double_dot nm = false ->
-  Spec.outcome_of m (Spec.to_spec U (go_resolve_skip U path nm (Spec.only_types m)))
+  Spec.outcome_of m (Spec.to_spec U (go_resolve U path nm (Spec.only_types m)))
   = Spec.outcome_of m (Spec.lookup U (relative_to U path elem) nm m).
 Proof.
-  intros Hw Hs Hdd. rewrite (go_resolve_skip_fixed U path elem) by assumption.
+  intros Hw Hs Hdd. rewrite (skip_eq_fixed U path elem) by assumption.
   now apply repaired_resolve_eq_protoc_lemma.
 Qed.
 
@@ -1277,9 +1277,9 @@ Definition ex_U : universe :=
 Lemma resolve_eq_protoc_refuted_lemma :
   exists U path elem nm m,
     wf_universe U = true /\ scope_ok U path elem = true /\ double_dot nm = false /\
-    go_resolve U path nm (Spec.only_types m) = GDesc [97;46;98;46;120]%N KExtension /\
+    go_resolve_old U path nm (Spec.only_types m) = GDesc [97;46;98;46;120]%N KExtension /\
     Spec.lookup U (relative_to U path elem) nm m = Spec.SFound [97;46;120]%N (Spec.SK KMessage) /\
-    Spec.outcome_of m (Spec.to_spec U (go_resolve U path nm (Spec.only_types m)))
+    Spec.outcome_of m (Spec.to_spec U (go_resolve_old U path nm (Spec.only_types m)))
     <> Spec.outcome_of m (Spec.lookup U (relative_to U path elem) nm m).
 Proof.
   exists ex_U, [[77]%N], [102]%N, [120]%N, Spec.LookupTypes.
@@ -1294,8 +1294,9 @@ Proof. split; vm_compute; reflexivity. Qed.
 
 Lemma resolve_example :
   wf_universe ex_U = true /\ scope_ok ex_U [[77]%N] [102]%N = true /\
-  guard ex_U [97;46;120]%N Spec.LookupTypes = true /\ guard ex_U [120]%N Spec.LookupTypes = false /\
+  go_resolve ex_U [[77]%N] [120]%N true = GDesc [97;46;120]%N KMessage /\
   go_resolve ex_U [[77]%N] [97;46;120]%N true = GDesc [97;46;120]%N KMessage /\
-  go_resolve_fixed ex_U [[77]%N] [120]%N true = GDesc [97;46;120]%N KMessage /\
+  go_resolve ex_U [] [120]%N false = GDesc [97;46;98;46;120]%N KExtension /\
+  go_resolve_old ex_U [[77]%N] [120]%N true = GDesc [97;46;98;46;120]%N KExtension /\
   create_prefix_list [97;46;98]%N = [[97;46;98]%N; [97]%N; []].
 Proof. repeat split; vm_compute; reflexivity. Qed.
